@@ -282,7 +282,7 @@ func (f *vC03Follower) exec(op string, model *vModel) (impl string, mod string) 
 		epoch := p.LeaderEpoch
 		p.mu.RUnlock()
 		data := f.leader.data(offs)
-		panicked, pv := vCatch(func() { p.handleReplicationResponse(&nats.Msg{Data: vC03Response(epoch, hw, data)}) })
+		panicked, pv := vCatch(func() { vCallLoose(p.handleReplicationResponse, &nats.Msg{Data: vC03Response(epoch, hw, data)}, epoch) })
 		if panicked {
 			return fmt.Sprintf("panic %v", pv), ""
 		}
